@@ -138,6 +138,7 @@ pub fn run_lines(lines: &[String], oracles: bool) -> RunResult {
     let mut discarded: Option<(usize, Vec<String>)> = None; // (seg_start, segment lines) of last discard
     let mut had_loss = false;
     let mut had_discard = false;
+    let mut n_drops = 0usize;
     let mut n_cuts_with_alive = 0usize;
     let mut n_rejected_with_state = 0usize;
     let mut n_entered_at_abort = 0usize;
@@ -612,7 +613,19 @@ pub fn run_lines(lines: &[String], oracles: bool) -> RunResult {
                         if entered_now > 0 {
                             n_entered_at_abort += 1;
                         }
-                        dispatcher::with_default(&sys.dispatch, || drop(recv));
+                        n_drops += 1;
+                        if n_drops % 2 == 0 {
+                            // the receiver goes away while its thread unwinds (the host panicked after the
+                            // guest aborted): the rollback must happen all the same
+                            let _ = catch_unwind(AssertUnwindSafe(|| {
+                                dispatcher::with_default(&sys.dispatch, || {
+                                    let _recv = recv;
+                                    panic!("host gives up on the execution");
+                                })
+                            }));
+                        } else {
+                            dispatcher::with_default(&sys.dispatch, || drop(recv));
+                        }
                         let mut delta = sys.host.take_log();
                         delta.sort();
                         rr.out.obs.extend(delta.iter().cloned());
